@@ -167,9 +167,18 @@ def facts_dir(config="dev", repo=None, target=None):
         else:
             os.rename(tmp, d)
         # keep the cache small: drop fact sets of other trees (keep 40 newest)
-        olds = sorted([p for p in glob.glob(os.path.join(base, "*-*")) if ".tmp" not in p], key=os.path.getmtime, reverse=True)
-        for o in olds[40:]:
-            shutil.rmtree(o, ignore_errors=True)
+        # (other workers prune concurrently: tolerate entries vanishing; never remove a set younger than 15 minutes,
+        # it may just have been produced for a worker that is about to load it)
+        def _mt(p_):
+            try:
+                return os.path.getmtime(p_)
+            except OSError:
+                return 0.0
+        olds = sorted([(_mt(p_), p_) for p_ in glob.glob(os.path.join(base, "*-*")) if ".tmp" not in p_], reverse=True)
+        now = time.time()
+        for mt_, o in olds[60:]:
+            if mt_ and now - mt_ > 900:
+                shutil.rmtree(o, ignore_errors=True)
         return d, h, wall
     finally:
         fcntl.flock(lock, fcntl.LOCK_UN)
